@@ -842,7 +842,12 @@ class RefMachine(object):
                 elif o.np.kind == "f":
                     new = o.np.type(prev + o.conv(v, "int"))
                 else:
-                    new = o.conv(int(prev) + int(o.conv(v, "int")), "int")
+                    total = int(prev) + int(o.conv(v, "int"))
+                    if o.np.kind == "i" and o.np.itemsize >= 4 and not (np.iinfo(o.np).min <= total <= np.iinfo(o.np).max):
+                        # wraps here; signed overflow in C++ (undefined behaviour, UBSan aborts)
+                        self.hazards.add("+<-overflow")
+                        self.hazard_at = "writeadd"
+                    new = o.conv(total, "int")
             o.items.append(new)
             self.note("+<-")
         elif op == "outdup":
